@@ -47,10 +47,14 @@ func init() {
 				if (heavy(a) || heavy(b)) && (base == "paused" || base == "busy") {
 					quick = 2
 				}
+				thorough := 2
+				if quick == 2 && base == "paused" {
+					thorough = 3
+				}
 				Register(&Scenario{
 					Name:  name("ctlpair/%s/%s+%s", base, a, b),
 					Props: []string{"C14", "C18", "C06", "C01", "C09", "C03"},
-					Mode:  "NB", Quick: quick, Thorough: 3, Shards: 2,
+					Mode:  "NB", Quick: quick, Thorough: thorough, Shards: 4,
 					Body: func(h *H) {
 						h.Shape = Gated
 						h.HangProp = "C06"
